@@ -353,6 +353,9 @@ func init() {
 			emit("4 9 612f62 0 1 0 0 010203")   // below max
 			emit("4 9 612f62 0 1 0 0 01020304") // at max: rejected
 			emit("0 9 612f62 0 3 0 0 01")       // QoS 3 rejected
+			emit("0 131071 612f62 0 1 0 0 01")  // counter reaches 0x20000: the low 16 bits are 0 and must be skipped
+			emit("0 196607 612f62 0 2 0 0 01")
+			emit("0 4294967295 612f62 0 1 0 1 01")
 			for i := 0; i < n; i++ {
 				max := pick(rng, 0, 0, 0, 8, 16)
 				qos := pick(rng, 0, 1, 2, 2, 1, 3)
@@ -392,6 +395,9 @@ func init() {
 				want := *m
 				want.Dup = false // Publish always sends DUP=0 on first transmission
 				r.Props = append(r.Props, checkPublishBytes("C05", w, nil, &want)...)
+				if len(w) > 0 && w[0]&0xf0 == 0x30 && w[0]&0x08 != 0 {
+					r.Props = append(r.Props, viol("C12", "dup-on-first", "first transmission of a message carries DUP=1 (the caller's Message.Dup was %v)", f[6] == "1"))
+				}
 				if callerID != 0 && m.ID != callerID {
 					r.Props = append(r.Props, viol("C15", "caller-id-changed", "caller id %d replaced by %d", callerID, m.ID))
 				}
